@@ -7,10 +7,10 @@
 
 namespace hz {
 
-enum FaultKind { F_EOF = 0, F_ALLOC_LOAD, F_FAIL_LOAD, F_THROW_LOAD, F_ALLOC_SAVE, F_FAIL_SAVE, F_THROW_SAVE, F_LIB_CSV_WIDTH, F_LIB_MISMATCH, F_LIB_BAD_UTF, F_LIB_SIZE_LIE, F_COUNT };
+enum FaultKind { F_EOF = 0, F_ALLOC_LOAD, F_FAIL_LOAD, F_THROW_LOAD, F_ALLOC_SAVE, F_FAIL_SAVE, F_THROW_SAVE, F_LIB_CSV_WIDTH, F_LIB_MISMATCH, F_LIB_BAD_UTF, F_LIB_SIZE_LIE, F_LIB_BAD_OPTION, F_HUGE_COUNT, F_COUNT };
 static const char* FaultName(int k)
 {
-	static const char* n[] = { "eof", "alloc_fail_load", "fail_load", "throw_load", "alloc_fail_save", "fail_save", "throw_save", "lib_csv_width", "lib_mismatch", "lib_bad_utf", "lib_size_lie" };
+	static const char* n[] = { "eof", "alloc_fail_load", "fail_load", "throw_load", "alloc_fail_save", "fail_save", "throw_save", "lib_csv_width", "lib_mismatch", "lib_bad_utf", "lib_size_lie", "lib_bad_option", "huge_count" };
 	return n[k];
 }
 
@@ -161,7 +161,8 @@ Outcome RunC20(RunCtx& ctx)
 	if (kind == F_FAIL_LOAD || kind == F_THROW_LOAD || kind == F_FAIL_SAVE || kind == F_THROW_SAVE) sc.stream = true;
 	if (kind >= F_LIB_CSV_WIDTH) sc.zoo = false;
 	if (kind == F_LIB_CSV_WIDTH && sc.archive != A_CSV) sc.archive = A_CSV, sc.ops = &GetOps(A_CSV), sc.o.valuesSeparator = ',';
-	if (kind == F_LIB_SIZE_LIE) { sc.archive = A_MSGPACK; sc.ops = &GetOps(A_MSGPACK); }
+	if (kind == F_LIB_SIZE_LIE || kind == F_HUGE_COUNT) { sc.archive = A_MSGPACK; sc.ops = &GetOps(A_MSGPACK); }
+	if (kind == F_LIB_BAD_OPTION) { sc.archive = A_CSV; sc.ops = &GetOps(A_CSV); sc.o.valuesSeparator = ','; }
 	if (sc.stream) { sc.in = DrawStreamCfg(s, sim::L_IO); sc.outCfg.stream = true; static const uint32_t bufs[] = { 0, 1, 16, 4096 }; sc.outCfg.bufSize = s.pick(sim::L_IO, bufs); }
 	if (sc.stream && sc.archive != A_MSGPACK && s.chance(sim::L_CFG, 1, 3))
 	{
@@ -509,6 +510,67 @@ Outcome RunC20(RunCtx& ctx)
 			*sn = saved;
 		}
 		ctx.count("fault.lib_bad_utf", positions);
+		break;
+	}
+	case F_LIB_BAD_OPTION:
+	{
+		// options the archive refuses (a values separator outside its set): every entry point throws, and nothing it had built stays behind
+		static const char bad[] = { ':', 'x', '"', '\n', '0' };
+		for (char sep : bad)
+		{
+			SerializationOptions saved = sc.o;
+			sc.o.valuesSeparator = sep;
+			for (int dir = 0; dir < 2; ++dir)
+			{
+				++positions;
+				SubResult r = dir == 0 ? DoSave(sc, nullptr, {}, 0) : DoLoad(sc, sc.bytes, {}, false, 0);
+				const std::string tags = baseTags + (dir == 0 ? " phase=save" : " phase=load");
+				const std::string at = std::string("values separator ") + std::to_string(static_cast<int>(sep)) + " is not one the archive accepts";
+				if (!AllowedException(r.r)) { sc.o = saved; return Violation("WRONG_EXCEPTION", tags, at + ": non-std exception"); }
+				if (r.r.ok) { sc.o = saved; return Violation("SILENT_FAILURE", tags + " what=bad_option_accepted", at + " but the operation returned normally"); }
+				Outcome lk = leakCheck(r, [&] { return dir == 0 ? DoSave(sc, nullptr, {}, 0) : DoLoad(sc, sc.bytes, {}, false, 0); }, tags, at);
+				if (lk.violation) { sc.o = saved; return lk; }
+				out.nontrivial = true;
+			}
+			sc.o = saved;
+		}
+		ctx.count("fault.lib_bad_option", positions);
+		break;
+	}
+	case F_HUGE_COUNT:
+	{
+		// the input ends right behind the header of a container that announces up to 2^32-1 elements, in a place the program does not
+		// read (the tail of an array it reads partly): the destructor that skips the tail must report the truncation
+		DynNode alt(K::Arr);
+		alt.items.push_back(sc.doc);
+		DynNode marker(K::U32);
+		marker.u32 = 0x12345678u;        // saved as CE 12 34 56 78: the five bytes are replaced below
+		alt.items.push_back(marker);
+		alt.readCount = 1;
+		std::string bytes;
+		{
+			CallResult sv = SaveDynWith(*sc.ops, alt, bytes, sc.o, OutCfg{});
+			if (!sv.ok || bytes.size() < 5 || static_cast<unsigned char>(bytes[bytes.size() - 5]) != 0xCE) { ctx.count("save_failed"); break; }
+		}
+		Scenario& sc2 = sc;          // the scenario now reads the two-element array (first element only)
+		sc2.doc = alt;
+		sc2.hasPlan = false;
+		static const unsigned char headers[][5] = { { 0xDF, 0x80, 0, 0, 0 }, { 0xDF, 0x80, 0, 0, 1 }, { 0xDF, 0xFF, 0xFF, 0xFF, 0xFF }, { 0xDD, 0x80, 0, 0, 0 }, { 0xDD, 0xFF, 0xFF, 0xFF, 0xFF }, { 0xDE, 0xFF, 0xFF, 0xC0, 0xC0 }, { 0xDB, 0xFF, 0xFF, 0xFF, 0xFF }, { 0xC6, 0x80, 0, 0, 0 } };
+		for (const auto& h : headers)
+		{
+			std::string faulted = bytes;
+			memcpy(&faulted[faulted.size() - 5], h, 5);
+			++positions;
+			SubResult r = DoLoad(sc2, faulted, {}, false, 0);
+			const std::string tags = baseTags + " phase=load";
+			const std::string at = "the input ends behind the header " + sim::hex(std::string(reinterpret_cast<const char*>(h), 5), 5) + " of an unread element";
+			if (!AllowedException(r.r)) return Violation("WRONG_EXCEPTION", tags, at + ": non-std exception");
+			if (r.r.ok) return Violation("SILENT_FAILURE", tags + " what=prefix_accepted", at + ", which announces far more data than there is, but the load succeeded");
+			Outcome lk = leakCheck(r, [&] { return DoLoad(sc2, faulted, {}, false, 0); }, tags, at);
+			if (lk.violation) return lk;
+			out.nontrivial = true;
+		}
+		ctx.count("fault.huge_count", positions);
 		break;
 	}
 	default:
